@@ -245,6 +245,9 @@ def r11(ctx):
 
 
 def run(ctx):
+    import rules.C12 as _c12b
+    ctx.borrow(_c12b.r2, {'C12.R2': 'C10.R12'},
+               'a field owns the bits its definition says: the derived type object a definition gets from the cache must have been built for the same width and divisor, so the cache key carries exactly the values the object is constructed with')
     r11(ctx)
     r1(ctx)
     r2(ctx)
